@@ -288,7 +288,11 @@ func Depth(d []byte) int {
 // Unescape decodes the content between the quotes of a well-formed JSON string. Raw bytes
 // are copied unchanged (valid UTF-8 or not).
 func Unescape(c []byte) []byte {
-	out := make([]byte, 0, len(c))
+	return UnescapeInto(make([]byte, 0, len(c)), c)
+}
+
+// UnescapeInto appends the unescaped content to out (no allocation when out has room).
+func UnescapeInto(out, c []byte) []byte {
 	for i := 0; i < len(c); {
 		if c[i] != '\\' {
 			out = append(out, c[i])
